@@ -376,7 +376,15 @@ def run(ctx):
     def norm(o, harness=True):
         if harness:
             o = unesc(o)
-        return o.split(" | ")[0] if o.startswith("OK ") else " ".join(o.split(" ")[:2])
+        o = o.split(" | ")[0] if o.startswith("OK ") else " ".join(o.split(" ")[:2])
+        if o.startswith("OK s:"):
+            # key order of objects is not compared (a declared-only field 'n: T;' is emitted as 'n;' or not at all
+            # depending on useDefineForClassFields, which only moves the key)
+            try:
+                o = "OK s:" + json.dumps(json.loads(o[5:]), sort_keys=True, ensure_ascii=False)
+            except ValueError:
+                pass
+        return o
     for idx, (c, a, b) in enumerate(zip(cases, got_ts, got_js)):
         ctx.cov["evaluations"] += 1
         hist[c["kind"]] = hist.get(c["kind"], 0) + 1
